@@ -789,9 +789,15 @@ class Mesh:
         else:
             data['p'] = np.ascontiguousarray(np.array(data['p']).T)
             data['t'] = np.ascontiguousarray(np.array(data['t']).T)
+        orientations = data.pop('orientations', None)
         if 'boundaries' in data and data['boundaries'] is not None:
             data['boundaries'] = {k: np.array(v)
                                   for k, v in data['boundaries'].items()}
+            if orientations is not None:
+                data['boundaries'].update({
+                    k: OrientedBoundary(data['boundaries'][k], v)
+                    for k, v in orientations.items()
+                })
         if 'subdomains' in data and data['subdomains'] is not None:
             data['subdomains'] = {k: np.array(v)
                                   for k, v in data['subdomains'].items()}
@@ -808,12 +814,19 @@ class Mesh:
             boundaries = {k: v.tolist() for k, v in self.boundaries.items()}
         if self.subdomains is not None:
             subdomains = {k: v.tolist() for k, v in self.subdomains.items()}
-        return {
+        out = {
             'p': self.p.T.tolist(),
             't': self.t.T.tolist(),
             'boundaries': boundaries,
             'subdomains': subdomains,
         }
+        if self.boundaries is not None:
+            orientations = {k: v.ori.tolist()
+                            for k, v in self.boundaries.items()
+                            if isinstance(v, OrientedBoundary)}
+            if len(orientations) > 0:
+                out['orientations'] = orientations
+        return out
 
     @classmethod
     def from_mesh(cls, mesh, t: Optional[ndarray] = None):
@@ -1379,7 +1392,8 @@ class Mesh:
             data['doflocs'],
             data['t'],
             _boundaries={
-                key[2:]: data[key]
+                key[2:]: (OrientedBoundary(data[key], data['o_' + key[2:]])
+                          if 'o_' + key[2:] in data.files else data[key])
                 for key in data.files
                 if key[:2] == 'b_'
             },
@@ -1394,6 +1408,9 @@ class Mesh:
 
         boundaries = {} if self.boundaries is None else self.boundaries
         subdomains = {} if self.subdomains is None else self.subdomains
+        orientations = {'o_' + key: value.ori
+                        for key, value in boundaries.items()
+                        if isinstance(value, OrientedBoundary)}
         boundaries = {'b_' + key: value for key, value in boundaries.items()}
         subdomains = {'s_' + key: value for key, value in subdomains.items()}
         np.savez(
@@ -1401,5 +1418,6 @@ class Mesh:
             doflocs=self.doflocs,
             t=self.t,
             **boundaries,
+            **orientations,
             **subdomains,
         )
